@@ -104,6 +104,9 @@ func Check(t *testing.T, quickN, thoroughN int, prop func(*rapid.T)) {
 	rapid.Check(t, prop)
 }
 
+// ShrinkTime bounds rapid's minimisation (stress checks whose cases take seconds).
+func ShrinkTime(d string) { must(flag.Set("rapid.shrinktime", d)) }
+
 // Steps sets rapid's average number of state machine actions.
 func Steps(n int) { must(flag.Set("rapid.steps", strconv.Itoa(n))) }
 
